@@ -39,7 +39,7 @@ ASSUMPTIONS = [
     'Constants are the protocol defaults served by the node (hard_gas_limit_per_operation 1040000, hard_storage_limit_per_operation 60000).',
     'Fault injection adds little here (stated in DESIGN.md): most runs are fault-free; transient bursts and latency are sampled in a minority.',
 ]
-EXPECTED_PROBES = ['address_only_client', 'batch_ge_20', 'custom_gas_reserve', 'batch_ge_8', 'tz4_judged', 'fee_varint_3_bytes', 'gas_near_hard_limit', 'large_payload', 'reveal_in_batch', 'internal_results']
+EXPECTED_PROBES = ['refilled_after_simulation_changed', 'address_only_client', 'batch_ge_20', 'custom_gas_reserve', 'batch_ge_8', 'tz4_judged', 'fee_varint_3_bytes', 'gas_near_hard_limit', 'large_payload', 'reveal_in_batch', 'internal_results']
 
 KINDS = ['transaction', 'transaction_kt', 'contract_call', 'reveal', 'delegation', 'origination', 'register_global_constant', 'transfer_ticket', 'smart_rollup_add_messages',
          'smart_rollup_execute_outbox_message']
@@ -140,7 +140,18 @@ def gen(seed, tier):
             kw['gas_reserve'] = rng.choice([0, 50, 150, 300, 1000, 5000])
             if rng.random() < 0.5:
                 kw['burn_reserve'] = rng.choice([0, 10, 500])
-        if path == 'send':
+        refill = rng.random() < 0.25
+        if refill:
+            # the group is filled/autofilled first (a preview, or the deprecated operation_group flow) and autofilled again later,
+            # when the simulation reports a different consumption: the fee must follow the second simulation
+            first = rng.choice(['fill', 'autofill'])
+            steps.append({'op': first, 'g': g})
+            plan2 = [dict(p0, milligas=min(hard, int(p0.get('milligas', 0) * rng.choice([1, 3, 10]) + rng.choice([0, 1_500_000, 40_000_000])))) for p0 in plan]
+            second = {'op': 'autofill', 'g': g, 'from': rng.choice(['filled', 'filled', 'base']), 'sim_plan': plan2, **({'kw': kw} if kw else {})}
+            steps.append(second)
+            steps.append({'op': 'sign', 'g': g})
+            steps.append({'op': 'inject', 'g': g})
+        elif path == 'send':
             steps.append({'op': 'send', 'g': g, **({'kw': kw} if kw else {})})
         else:
             st = {'op': path, 'g': g, **({'kw': kw} if kw else {})}
@@ -181,6 +192,8 @@ def oracle(world, info):
         world.bump(world.probes, 'batch_ge_20')
     if world.cfg.get('watch_only'):
         world.bump(world.probes, 'address_only_client')
+    if g.get('fills', 0) > 1:
+        world.bump(world.probes, 'refilled_after_simulation_changed')
     if (g.get('fill_kw') or {}).get('gas_reserve') is not None:
         world.bump(world.probes, 'custom_gas_reserve')
     if world.key_kind == 'tz4':
@@ -199,6 +212,8 @@ def oracle(world, info):
         return None
     nb = '1' if n == 1 else ('2-3' if n <= 3 else ('4-16' if n <= 16 else '17+'))
     reserve = 'default' if (g.get('fill_kw') or {}).get('gas_reserve') is None else 'custom'
+    if g.get('fills', 0) > 1:
+        path = f'{path}(refill)'
     sig = f'C24/fee-too-low:path={path}:key={world.key_kind}{"(address-only)" if world.cfg.get("watch_only") else ""}:batch={nb}:gas_reserve={reserve}'
     world.violations.append({
         'kind': 'fee', 'sig': sig,
